@@ -432,6 +432,17 @@ def execute(plan):
             if fired:
                 bump(faults, fired[0])
                 interesting += 1
+            answered_no_pull = bool(
+                fired and fired[0] == 'cim_error' and
+                fired[1].startswith('Open') and
+                call['fault'].get('code') in (1, 7))
+            if answered_no_pull:
+                # an injected CIM_ERR_FAILED / CIM_ERR_NOT_SUPPORTED answer to
+                # an Open request is, for the client, a server that had no
+                # pull operations at that moment and has them afterwards: the
+                # same situation as a toggled server
+                toggled = True  # (this call is judged as faulted)
+                bump(probes, 'open_answered_no_pull_by_fault')
             if early:
                 bump(probes, 'closed_early_' + call['consume'][0])
                 interesting += 1
